@@ -293,6 +293,61 @@ if _c02m is not None:
             setattr(send_newkeys_sid, _attr, getattr(_nk, _attr))
 
 
+# ------------------------------------------------------------------------------------------------ receive gate during a re-key
+# "A key re-exchange ... at any point in a busy session, loses ... no channel data and no request": while an exchange
+# is running on a connection that already HAS receive keys, everything the peer may still have in flight keeps being
+# accepted.  C06 states the soundness direction of the gate of _recv_packet (whatever is dispatched is allowed); this
+# is the complementary direction for connections with receive keys: the gate itself ends the activation (ProtocolError
+# with no handler invoked) only for the reasons the RFCs give, none of which is "a key exchange is running" -
+#   30..49  no exchange object registered (RFC 4253 7)          60..79  no authentication in progress (RFC 4252)
+#   > 79    authentication not complete (RFC 4252 6)            93..127 unknown / unreadable recipient channel (RFC 4254)
+# - in particular IGNORE / UNIMPLEMENTED / DEBUG are fatal only before the FIRST NEWKEYS (strict kex, no receive keys
+# yet), never during a re-key; and a message no handler knows is answered UNIMPLEMENTED, not treated as a violation.
+def _gate_records(c):
+    return [x for x in c.new_state.calls if x['key'].endswith('process_packet')]
+
+
+def gate_refuses_only_for_rfc_reasons(c):
+    if c.raised != 'ProtocolError' or _gate_records(c) or not c.has_local('pkttype'):
+        return z3.BoolVal(True)
+    t = c.local('pkttype')
+    return z3.Implies(is_set(c, '_recv_encryption'), z3.Or(
+        z3.And(t >= 30, t <= 49, z3.Not(is_set(c, '_kex'))),
+        z3.And(t >= 60, t <= 79, z3.Not(is_set(c, '_auth'))),
+        z3.And(t > 79, z3.Not(c.old('_auth_complete'))),
+        z3.And(t >= 93, t <= 127)))
+
+
+def handled_message_is_not_a_violation(c):
+    """with receive keys, once a handler ran the only ProtocolError is one the handler itself raised (malformed message)"""
+    recs = _gate_records(c)
+    if c.raised != 'ProtocolError' or not recs:
+        return z3.BoolVal(True)
+    return z3.Implies(is_set(c, '_recv_encryption'), z3.BoolVal(any(x['exc'] is not None for x in recs)))
+
+
+def _c06_gate():
+    try:
+        from . import c06
+    except Exception:       # noqa
+        return None
+    return getattr(c06, 'recv_packet', None)
+
+
+_gate = _c06_gate()
+if _gate is not None:
+    import copy as _copy
+    recv_gate_rekey = _copy.copy(_gate)         # same function, heap shape, stubs and precondition as C06's contract
+    recv_gate_rekey.prop = 'C11'
+    recv_gate_rekey.ensures = []
+    recv_gate_rekey.always = [
+        ('with-receive-keys-the-gate-refuses-only-for-RFC-reasons(never-because-a-re-key-is-running)',
+         total(gate_refuses_only_for_rfc_reasons)),
+        ('with-receive-keys-a-handled-message-is-never-a-strict-kex-violation', total(handled_message_is_not_a_violation))]
+    recv_gate_rekey.crosscheck_limit = 4        # the function is cross-checked path by path under C06 already
+    Spec.registry.append(recv_gate_rekey)
+
+
 _parent = _sys.modules.get('contracts.c11')
 if _parent is not None and hasattr(_parent, 'ASSUMPTIONS'):
     for _a in ASSUMPTIONS_KEXINIT:
